@@ -137,7 +137,18 @@ struct World
 		delete ses; ses = nullptr;
 		delete per; per = nullptr;
 	}
-	void teardown() { collect(); drop_connection(); destroy_session(); }
+	// A pipelined connection is never torn down inside a run: FIXWriter::stop() pushes NULL into the FastFlow queue, which
+	// asserts, and a pipelined reader that ended by itself leaves its callback thread spinning for ever. Such a world is
+	// abandoned (its parked threads stay parked) and the worker process is recycled now and then. Harnesses that use the
+	// pipelined model therefore avoid anything that ends or restarts the session (long silences, restarts).
+	bool pipelined() const { return pm == pm_pipeline; }
+	static int& abandoned_worlds() { static int n = 0; return n; }
+	void teardown()
+	{
+		collect();
+		if (pipelined() && conn) { if (++abandoned_worlds() >= 30) drv::request_recycle(); conn = nullptr; ses = nullptr; per = nullptr; impl = nullptr; return; }
+		drop_connection(); destroy_session();
+	}
 
 	bool alive() const { return ses && conn && !ses->terminated(); }
 
@@ -145,7 +156,7 @@ struct World
 	unsigned app_counter = 0;
 	std::string next_app_id(const char *pfx = "S") { return std::string(pfx) + std::to_string(++app_counter); }
 	bool app_send(const std::string& id) { return ses->send(order(id)); }
-	bool app_send_ref(const std::string& id) { std::unique_ptr<Message> m(order(id)); return ses->send(*m); }
+	bool app_send_ref(const std::string& id) { if (pipelined()) return app_send(id); std::unique_ptr<Message> m(order(id)); return ses->send(*m); }   // send(Message&) is not permitted when pipelining
 	size_t app_batch(const std::vector<std::string>& ids) { std::vector<Message *> v; for (auto& i : ids) v.push_back(order(i)); return ses->send_batch(v, true); }
 };
 
